@@ -604,7 +604,9 @@ def run(ctx: Ctx) -> int:
     ok = bool(sn) and isinstance(sn[0], ast.Constant) and sn[0].value is False
     ctx.oblige("C01.d", ok, dicts["kwargs"], "--print_config keeps nulls by default (skip_none=False), the variant that round-trips" if ok else "--print_config drops nulls by default", fn=pcall, construct="skip_none False")
     dcalls = [c for c in calls_in(pir) if call_leaf(c) == "dump"]
-    ok = len(dcalls) == 1 and any(k.arg is None and "print_config" in ast.unparse(k.value) for k in dcalls[0].keywords) and any(call_name(c) == "sys.stdout.write" for c in calls_in(pir))
+    # the mapping splatted into dump is the stored request - read directly or through a local bound to it
+    req_locals = {s_.targets[0].id for s_ in walk_local(pir) if isinstance(s_, ast.Assign) and len(s_.targets) == 1 and isinstance(s_.targets[0], ast.Name) and isinstance(s_.value, ast.Attribute) and s_.value.attr == "print_config"}
+    ok = len(dcalls) == 1 and any(k.arg is None and ("print_config" in ast.unparse(k.value) or (isinstance(k.value, ast.Name) and k.value.id in req_locals)) for k in dcalls[0].keywords) and any(call_name(c) == "sys.stdout.write" for c in calls_in(pir))
     ctx.oblige("C01.d", ok, dcalls[0] if dcalls else pir, "the printed text is subparser.dump(cfg, **flags) written to stdout" if ok else "print_config no longer prints dump(cfg, **flags)", fn=pir)
 
     # ---------------- C01.e ---------------------------------------------------
